@@ -427,6 +427,17 @@ class C13(CodeMonitor):
 class C14(CodeMonitor):
     prop = "C14"
 
+    def decoded_key(self, code):
+        """Strict key of what decoding this code object on its own gives (memoized by
+        the code object's strict key; decoding is deterministic per C12)."""
+        memo = self.__dict__.setdefault("_kmemo", {})
+        k = digest64(code_key(code))
+        if k not in memo:
+            if len(memo) > 200000:
+                memo.clear()
+            memo[k] = hash(skey(CodeData.from_code(code)))
+        return memo[k]
+
     def check_code(self, case, code, stats):
         nested = [k for k in code.co_consts if type(k) is type(code)]
         raw, sym = self.oracle(code, stats)
@@ -461,8 +472,8 @@ class C14(CodeMonitor):
         if any(not isinstance(x, CodeData) for x in direct + every):
             stats.violation(case, "yields-non-codedata", "iteration yields something that is not CodeData")
             return
-        want_direct = collections.Counter(skey(CodeData.from_code(k)) for k in nested)
-        got_direct = collections.Counter(skey(x) for x in direct)
+        want_direct = collections.Counter(self.decoded_key(k) for k in nested)
+        got_direct = collections.Counter(hash(skey(x)) for x in direct)
         if want_direct != got_direct:
             stats.violation(
                 case,
@@ -478,8 +489,8 @@ class C14(CodeMonitor):
                 multiply_referenced=any(refs[i] > 1 for i in idxs),
             )
             return
-        want_all = collections.Counter(skey(CodeData.from_code(c)) for p, c in walk_codes(code))
-        got_all = collections.Counter(skey(x) for x in every)
+        want_all = collections.Counter(self.decoded_key(c) for p, c in walk_codes(code))
+        got_all = collections.Counter(hash(skey(x)) for x in every)
         if want_all != got_all:
             stats.violation(
                 case,
